@@ -5,7 +5,8 @@
              report VIOLATED;
   silence  - behaviour-preserving rewrites of the current source (ast.unparse round trip of every module; a
              debug-noise variant with an extra guarded log line at the start of every function and before every
-             return; alpha-renaming of locals) must leave every rule's verdict unchanged.
+             return; alpha-renaming of locals; every two-armed `if` with its arms swapped under the negated test;
+             `x += e` spelled `x = x + e`) must leave every rule's verdict unchanged.
 
 A mutant whose anchor text is not found on the current tree is recorded as skipped. A mutant that applies but is not
 reported, or a rewrite that changes a verdict, makes the check exit 2 (the checker is broken) - unless the property
@@ -166,8 +167,41 @@ def rewrite_rename(src: str) -> str:
     return ast.unparse(tree)
 
 
-REWRITES = {'unparse': rewrite_unparse, 'noise': rewrite_noise, 'rename': rewrite_rename}
-GATING = {'unparse', 'noise', 'rename'}   # pure alpha-renaming is undone by ofverif.vocab; no verdict may change
+class _FlipIf(ast.NodeTransformer):
+    """`if c: A else: B`  ->  `if not c: B else: A`  (elif chains are left alone)"""
+    def visit_If(self, node):
+        self.generic_visit(node)
+        if node.orelse and not (len(node.orelse) == 1 and isinstance(node.orelse[0], ast.If)):
+            t = node.test
+            node.test = t.operand if isinstance(t, ast.UnaryOp) and isinstance(t.op, ast.Not) else ast.UnaryOp(op=ast.Not(), operand=t)
+            node.body, node.orelse = node.orelse, node.body
+        return node
+
+
+def rewrite_flipif(src: str) -> str:
+    tree = _FlipIf().visit(ast.parse(src))
+    ast.fix_missing_locations(tree)
+    return ast.unparse(tree)
+
+
+class _Aug(ast.NodeTransformer):
+    """`x += e`  ->  `x = x + e`  for plain names"""
+    def visit_AugAssign(self, node):
+        self.generic_visit(node)
+        if isinstance(node.target, ast.Name):
+            return ast.Assign(targets=[ast.Name(id=node.target.id, ctx=ast.Store())],
+                              value=ast.BinOp(left=ast.Name(id=node.target.id, ctx=ast.Load()), op=node.op, right=node.value))
+        return node
+
+
+def rewrite_aug(src: str) -> str:
+    tree = _Aug().visit(ast.parse(src))
+    ast.fix_missing_locations(tree)
+    return ast.unparse(tree)
+
+
+REWRITES = {'unparse': rewrite_unparse, 'noise': rewrite_noise, 'rename': rewrite_rename, 'flipif': rewrite_flipif, 'aug': rewrite_aug}
+GATING = set(REWRITES)   # pure alpha-renaming is undone by ofverif.vocab; no verdict may change under any of them
 
 
 def _run_rewrite(args):
